@@ -132,7 +132,34 @@ func genC13(rng *rand.Rand, n int, tier string, emit func(*Sx)) {
 				ops = append(ops, T("wr"))
 			}
 		}
-		emit(mk(methods[rng.Intn(len(methods))], ops))
+		c := mk(methods[rng.Intn(len(methods))], ops)
+		if rng.Intn(4) == 0 && !strings.Contains(c.String(), "(cwh ") {
+			// a writer over a writer (an instance mounted on another, a handler wrapping the writer it got): the lower
+			// writer has a life of its own first; its before functions do not panic; both serve the same kind of request
+			// or only the upper one serves HEAD
+			var pre []*Sx
+			for k := rng.Intn(5); k > 0; k-- {
+				switch rng.Intn(6) {
+				case 0:
+					pre = append(pre, T("wh", I(codes[rng.Intn(len(codes))])))
+				case 1:
+					pre = append(pre, T("w", X("pre"), I(3)))
+				case 2:
+					pre = append(pre, T("fl"))
+				case 3, 4:
+					pre = append(pre, T("bf", I(100+k)))
+				default:
+					pre = append(pre, T("st"))
+				}
+			}
+			m2 := c.Field("method").Args()[0].Atom
+			m1 := m2
+			if m2 == "HEAD" && rng.Intn(2) == 0 {
+				m1 = "GET"
+			}
+			c.List = append(c.List, T("outer", T("method", A(m1)), T("head", B(m1 == "HEAD")), T("ops", pre...)))
+		}
+		emit(c)
 	}
 }
 
@@ -144,10 +171,23 @@ func runC13(in *Sx) *Sx {
 	if p := in.Field("plain"); p != nil && p.Args()[0].Atom == "1" {
 		under = spy
 	}
-	w := flamego.NewResponseWriter(method, under)
+	var w flamego.ResponseWriter
+	if o := in.Field("outer"); o != nil {
+		// a writer over a writer: the lower one lives through its own operations first
+		w = flamego.NewResponseWriter(o.Field("method").Args()[0].Atom, under)
+		pre := run13(w, spy, &events, o.Field("ops").Args())
+		w = flamego.NewResponseWriter(method, w)
+		return T("obs", T("outs", run13(w, spy, &events, in.Field("ops").Args())...), T("pre", pre...))
+	}
+	w = flamego.NewResponseWriter(method, under)
+	return T("obs", T("outs", run13(w, spy, &events, in.Field("ops").Args())...))
+}
+
+// run13 performs the operations on w and returns what each made observable.
+func run13(w flamego.ResponseWriter, spy *spyWriter, ev *[]*Sx, ops []*Sx) []*Sx {
 	var outs []*Sx
-	for _, op := range in.Field("ops").Args() {
-		events = nil
+	for _, op := range ops {
+		*ev = nil
 		a := op.Args()
 		if op.Tag() == "cwh" {
 			// (cwh c1 c2): WriteHeader(c2) arrives while WriteHeader(c1) is inside the underlying writer; the answers
@@ -160,7 +200,7 @@ func runC13(in *Sx) *Sx {
 						if r != hookPanic {
 							panic(r)
 						}
-						events = append(events, T("pan"))
+						*ev = append(*ev, T("pan"))
 					}
 				}()
 				w.WriteHeader(c)
@@ -172,8 +212,8 @@ func runC13(in *Sx) *Sx {
 			case <-time.After(5 * time.Second):
 			}
 			spy.block = nil // consumed if the first caller is inside the underlying writer now; otherwise nobody waits
-			outs = append(outs, L(events...))
-			events = nil
+			outs = append(outs, L((*ev)...))
+			*ev = nil
 			doneB := make(chan struct{})
 			go func() { defer close(doneB); call(a[1].Int()) }()
 			select {
@@ -193,7 +233,7 @@ func runC13(in *Sx) *Sx {
 				case <-time.After(5 * time.Second):
 				}
 			}
-			second := L(events...)
+			second := L((*ev)...)
 			outs = append(outs, second)
 			continue
 		}
@@ -203,7 +243,7 @@ func runC13(in *Sx) *Sx {
 					if r != hookPanic {
 						panic(r)
 					}
-					events = append(events, T("pan"))
+					*ev = append(*ev, T("pan"))
 				}
 			}()
 			switch op.Tag() {
@@ -223,25 +263,25 @@ func runC13(in *Sx) *Sx {
 			case "bf":
 				id := a[0].Int()
 				w.Before(func(rw flamego.ResponseWriter) {
-					events = append(events, T("hk", I(id), I(rw.Status())))
+					*ev = append(*ev, T("hk", I(id), I(rw.Status())))
 				})
 			case "bfp":
 				id := a[0].Int()
 				w.Before(func(rw flamego.ResponseWriter) {
-					events = append(events, T("hk", I(id), I(rw.Status())))
+					*ev = append(*ev, T("hk", I(id), I(rw.Status())))
 					panic(hookPanic)
 				})
 			case "st":
-				events = append(events, T("ast", I(w.Status())))
+				*ev = append(*ev, T("ast", I(w.Status())))
 			case "sz":
-				events = append(events, T("asz", I(w.Size())))
+				*ev = append(*ev, T("asz", I(w.Size())))
 			case "wr":
-				events = append(events, T("awr", B(w.Written())))
+				*ev = append(*ev, T("awr", B(w.Written())))
 			default:
 				panic(badInput("op " + op.String()))
 			}
 		}()
-		outs = append(outs, L(events...))
+		outs = append(outs, L((*ev)...))
 	}
-	return T("obs", T("outs", outs...))
+	return outs
 }
